@@ -253,6 +253,7 @@ class Ctx:
         self.rng = random.Random('%s-%s' % (pid, seed))
         self.t0 = time.time()
         self.violations = []        # dicts: kind, what, input, ...
+        self._viol_keys = {}
         self.known_hits = {}        # finding id -> description
         self.broken = []            # TieBroken items (theorem/correspondence names)
         self.evaluations = 0
@@ -323,7 +324,11 @@ class Ctx:
         if k is not None:
             self.known_hits[k['id']] = k['description']
             return False
-        if len(self.violations) < 25:
+        shape = case.get('shape') if isinstance(case, dict) else None
+        key = (stream, what, shape)
+        n = self._viol_keys.get(key, 0)
+        self._viol_keys[key] = n + 1
+        if n < 3 and len(self._viol_keys) <= 40:
             self.violations.append({'kind': kind, 'stream': stream, 'what': what, 'input': case,
                                     'expected': expected, 'observed': observed,
                                     'how_to_replay': how})
@@ -361,7 +366,7 @@ class Ctx:
             for v in viol:
                 shape = v['input'].get('shape') if isinstance(v['input'], dict) else None
                 by.setdefault((v['stream'], v['what'], shape), v)
-            for (stream, what, _shape), v in list(by.items())[:8]:
+            for (stream, what, _shape), v in list(by.items())[:20]:
                 path = self.write_replay({
                     'property': self.pid, 'kind': v['kind'], 'stream': stream, 'what': what,
                     'input': v['input'], 'expected': v['expected'], 'observed': v['observed'],
